@@ -753,6 +753,21 @@ def gen_del_cases(rng, tier):
 # =========================================================================== run / replay
 
 
+def long_case():
+    try:
+        from infretis.classes.path import Path as _Path
+        nlong = int(_Path().maxlen) + 3
+    except Exception:  # noqa: BLE001
+        return None, 0
+    if not 0 < nlong <= 400000:
+        return None, nlong
+    lfiles = ["w0/a.lat", "w0/b.lat", "w1/c.lat"]
+    lframes = [{"orders": [f2j(round(k * 1e-3, 3))], "vpot": f2j(None), "ekin": f2j(None), "file": lfiles[(3 * k) // nlong],
+                "idx": k % 1000, "rev": k % 7 == 0} for k in range(nlong)]
+    return {"kind": "func", "class": "longer-than-default-maxlen", "frames": lframes,
+            "files": {f: "content of " + f for f in lfiles}, "step": 3, "gen": ["sh", 0.5, 1, 2], "pn": 5, "keep": []}, nlong
+
+
 def run(ctx):
     common.proof_stage(ctx, "C14", ["extract/c14.vo"])
     runner = common.runner_stage(ctx, "c14")
@@ -777,6 +792,18 @@ def run(ctx):
             ctx.violation(f"C14 statement fails on the implementation: {problems[0]}", {"case": case, "problems": problems}, found_input=True)
         reqs.append(req)
         metas.append((case, impl, hyp))
+    # a path longer than the default maximum length of a fresh Path object (legal whenever
+    # tis_set.maxlength is larger): judged by the statement on the implementation only, the model
+    # (whose theorems hold for every length) is not evaluated on it
+    lcase, nlong = long_case()
+    if lcase is not None:
+        _, _, problems, hyp = run_func_case(lcase)
+        ctx.dist("func:longer-than-default-maxlen")
+        ctx.count(("func-long", nlong), nontrivial=True)
+        if problems:
+            ctx.violation(f"C14 statement fails on the implementation: a path of {nlong} frames in 3 files: {problems[0]}",
+                          {"case": {k: v for k, v in lcase.items() if k != "frames"}, "frames": f"{nlong} frames, file k*3//n, index k%1000, reversed k%7==0",
+                           "problems": problems}, found_input=True)
     if runner is not None:
         outs = runner.run(reqs)
         for (case, impl, hyp), req, mo in zip(metas, reqs, outs):
@@ -862,6 +889,11 @@ def replay(doc):
     if not case:
         print(json.dumps(doc, indent=1)[:4000])
         return 0
+    if case.get("class") == "longer-than-default-maxlen":
+        case, _ = long_case()
+        _, _, problems, _ = run_func_case(case)
+        print("oracle problems:", problems)
+        return 1 if problems else 0
     if case.get("kind") == "func":
         req, impl, problems, hyp = run_func_case(case)
         print("hypotheses failing:", hyp[0], "colliding base names:", hyp[1])
